@@ -1,7 +1,7 @@
 // Translation unit for do_space() (C19-K1): the real 3400-line decision function of src/space.cpp, verbatim,
 // executed once symbolically: every Chunk attribute is unconstrained, chunk navigation returns arbitrary members
 // of a small pool, every option value is any value of its range.  log_rule("name") records the rule id (D10).
-#include "/repo/src/token_enum.h"
+#include "token_enum.h"      /* from the working tree: -I <repo>/src */
 #define VERIF_E_TOKEN
 #include "base.h"
 #include "containers.h"
@@ -62,7 +62,7 @@ extern "C" int strcmp(const char *, const char *) { return nondet_int(); }
 //@slice src/chunk.cpp fn Chunk::SetType
 //@slice src/unc_text.cpp fn UncText::size
 //@slice src/unc_text.cpp fn UncText::operator[]
-#include "/repo/src/add_space_table.h"
+#include "add_space_table.h"   /* from the working tree: -I <repo>/src */
 extern "C" {
 //@slice src/space.cpp fn do_space
 int w_do_space(Chunk *first, Chunk *second, int *min_sp) { return (int)do_space(first, second, *min_sp); }
